@@ -11,9 +11,25 @@ use crate::engine::run::{fp_debug, Ctx, Local, Tier};
 use crate::engine::space::*;
 use crate::refmodel::model::*;
 use crate::refmodel::repr::WErr;
-use crate::subject::build::{self, DynW, Variant, Wrap, WRAPS};
+use crate::subject::build::{self, DynW, Variant, Wrap};
 use rtcp_types::prelude::*;
 use rtcp_types::*;
+
+thread_local! {
+    /// when set, every builder call of a replayed history is followed by a query of the intermediate builder
+    static HIST_PROBE: std::cell::Cell<bool> = std::cell::Cell::new(false);
+}
+fn probing() -> bool {
+    HIST_PROBE.with(|c| c.get())
+}
+#[inline]
+fn hp<W: RtcpPacketWriter>(w: W) -> W {
+    build::pr(w, probing())
+}
+#[inline]
+fn hpi<'a>(w: SdesItemBuilder<'a>) -> SdesItemBuilder<'a> {
+    build::pr_item(w, probing())
+}
 
 fn bytes_of(w: &dyn RtcpPacketWriter) -> Result<Vec<u8>, WErr> {
     let n = w.calculate_size().map_err(build::werr)?;
@@ -81,17 +97,21 @@ where
     l.states += 1;
     l.sample(|| format!("{}: {}", family, hist()));
     l.nontrivial(fp_debug(model));
-    for wrap in WRAPS {
+    // the four wrapper flavours plainly, then the bare builder and the one-member compound once more with every
+    // call of the history followed by a query of the intermediate builder (calculate_size + scratch write)
+    for (wrap, probe) in [(Wrap::None, false), (Wrap::Packet, false), (Wrap::Compound1, false), (Wrap::CompoundPacket, false), (Wrap::None, true), (Wrap::Compound1, true)] {
         l.transitions += 1;
+        HIST_PROBE.with(|c| c.set(probe));
         let r = guard::catch(|| match wrap {
             Wrap::None => bytes_of(&mk()),
             Wrap::Packet => bytes_of(&PacketBuilder::from(mk())),
             Wrap::Compound1 => bytes_of(&Compound::builder().add_packet(mk())),
             Wrap::CompoundPacket => bytes_of(&Compound::builder().add_packet(PacketBuilder::from(mk()))),
         });
+        HIST_PROBE.with(|c| c.set(false));
         match r {
-            Err(pi) => l.subject_panic(&format!("history:{}", family), &pi, || hist()),
-            Ok(got) => judge(l, family, hist, model, wrap, got),
+            Err(pi) => l.subject_panic(&format!("history:{}{}", family, if probe { ":probed" } else { "" }), &pi, || hist()),
+            Ok(got) => judge(l, family, &|| format!("{}{}", hist(), if probe { " (builder queried after every call)" } else { "" }), model, wrap, got),
         }
     }
 }
@@ -100,20 +120,20 @@ where
 
 const BYE_OPS: u64 = 9;
 fn bye_history(seq: &[u64]) -> (ByeBuilder<'static>, Pkt, String) {
-    let mut b = Bye::builder();
+    let mut b = hp(Bye::builder());
     let (mut pad, mut ssrcs, mut reason) = (0u8, Vec::new(), String::new());
     let mut d = String::from("Bye::builder()");
     for &op in seq {
         match op {
             0 | 1 => {
                 let p = if op == 0 { 0 } else { 4 };
-                b = b.padding(p);
+                b = hp(b.padding(p));
                 pad = p;
                 d += &format!(".padding({})", p);
             }
             2 | 3 => {
                 let s = if op == 2 { 0x11 } else { 0x2200_0000 };
-                b = b.add_source(s);
+                b = hp(b.add_source(s));
                 ssrcs.push(s);
                 d += &format!(".add_source({:#x})", s);
             }
@@ -123,13 +143,13 @@ fn bye_history(seq: &[u64]) -> (ByeBuilder<'static>, Pkt, String) {
                     5 => "hello",
                     _ => "",
                 };
-                b = b.reason(r);
+                b = hp(b.reason(r));
                 reason = r.to_string();
                 d += &format!(".reason({:?})", r);
             }
             _ => {
                 let r = if op == 6 { "yz" } else { "" };
-                b = b.reason_owned(r);
+                b = hp(b.reason_owned(r));
                 reason = r.to_string();
                 d += &format!(".reason_owned({:?})", r);
             }
@@ -153,12 +173,12 @@ fn item_history(ty: u8, seq: &[u64]) -> (SdesItemBuilder<'static>, Item, String)
                     1 => b"bcd",
                     _ => b"",
                 };
-                b = b.prefix(p);
+                b = hpi(b.prefix(p));
                 m.prefix = p.to_vec();
                 d += &format!(".prefix({:?})", p);
             }
             _ => {
-                b = b.into_owned();
+                b = hpi(b.into_owned());
                 d += ".into_owned()";
             }
         }
@@ -171,27 +191,27 @@ fn rpsi_history(seq: &[u64]) -> (RpsiBuilder<'static>, Fci, String) {
     static D1: [u8; 1] = [0xF0];
     static D2: [u8; 3] = [1, 2, 0xFF];
     static D3: [u8; 2] = [0xAB, 0xCD];
-    let mut b = Rpsi::builder();
+    let mut b = hp(Rpsi::builder());
     let (mut pt, mut data, mut over): (u8, Vec<u8>, u8) = (0, Vec::new(), 0);
     let mut d = String::from("Rpsi::builder()");
     for &op in seq {
         match op {
             0 | 1 => {
                 let p = if op == 0 { 5 } else { 96 };
-                b = b.payload_type(p);
+                b = hp(b.payload_type(p));
                 pt = p;
                 d += &format!(".payload_type({})", p);
             }
             2 | 3 => {
                 let (x, o): (&'static [u8], u8) = if op == 2 { (&D1, 0) } else { (&D2, 3) };
-                b = b.native_data(x, o);
+                b = hp(b.native_data(x, o));
                 data = x.to_vec();
                 over = o;
                 d += &format!(".native_data({:?}, {})", x, o);
             }
             _ => {
                 let (x, o): (&'static [u8], u8) = if op == 4 { (&D1, 0) } else { (&D3, 8) };
-                b = b.native_data_owned(x, o);
+                b = hp(b.native_data_owned(x, o));
                 data = x.to_vec();
                 over = o;
                 d += &format!(".native_data_owned({:?}, {})", x, o);
@@ -227,14 +247,14 @@ macro_rules! apply_fb_setters {
     ($b:expr, $seq:expr) => {{
         let mut b = $b;
         for &op in $seq {
-            b = match op {
+            b = hp(match op {
                 0 => b.sender_ssrc(0x0A0A_0A0A),
                 1 => b.sender_ssrc(0xB0B0_B0B0),
                 2 => b.media_ssrc(0x0C0C_0C0C),
                 3 => b.media_ssrc(0xD0D0_D0D0),
                 4 => b.padding(0),
                 _ => b.padding(4),
-            };
+            });
         }
         b
     }};
@@ -336,11 +356,11 @@ pub fn c20(ctx: &mut Ctx) {
         all_wraps(l, "SdesBuilder", &|| d.clone(), &model, &|| {
             let mut b = Sdes::builder();
             for &op in &seq {
-                b = match op {
+                b = hp(match op {
                     0 => b.padding(0),
                     1 => b.padding(4),
                     k => b.add_chunk(mk_chunk(k - 2).0),
-                };
+                });
             }
             b
         });
@@ -425,14 +445,14 @@ pub fn c20(ctx: &mut Ctx) {
         all_wraps(l, "AppBuilder", &|| d.clone(), &model, &|| {
             let mut b = App::builder(7, "nm");
             for &op in &seq {
-                b = match op {
+                b = hp(match op {
                     0 => b.padding(0),
                     1 => b.padding(4),
                     2 => b.subtype(1),
                     3 => b.subtype(30),
                     4 => b.data(&AD1),
                     _ => b.data(&AD2),
-                };
+                });
             }
             b
         });
@@ -458,12 +478,12 @@ pub fn c20(ctx: &mut Ctx) {
         all_wraps(l, "UnknownBuilder", &|| d.clone(), &model, &|| {
             let mut b = Unknown::builder(207, &AD1);
             for &op in &seq {
-                b = match op {
+                b = hp(match op {
                     0 => b.padding(0),
                     1 => b.padding(8),
                     2 => b.count(1),
                     _ => b.count(31),
-                };
+                });
             }
             b
         });
@@ -509,14 +529,14 @@ pub fn c20(ctx: &mut Ctx) {
             let mut b = SenderReport::builder(0x51);
             for &op in &seq {
                 let v = (op % 2) as usize;
-                b = match op / 2 {
+                b = hp(match op / 2 {
                     0 => b.padding([0, 4][v]),
                     1 => b.ntp_timestamp([0x0102_0304_0506_0708, u64::MAX][v]),
                     2 => b.rtp_timestamp([0x1111_1111, 0xFF00_0000][v]),
                     3 => b.packet_count([0x2222_2222, 0x0000_00FF][v]),
                     4 => b.octet_count([0x3333_3333, 0x00FF_0000][v]),
                     _ => b.add_report_block(build::rb_builder(if v == 0 { &rbx } else { &rby })),
-                };
+                });
             }
             b
         });
@@ -542,12 +562,12 @@ pub fn c20(ctx: &mut Ctx) {
         all_wraps(l, "ReceiverReportBuilder", &|| d.clone(), &model, &|| {
             let mut b = ReceiverReport::builder(0x52);
             for &op in &seq {
-                b = match op {
+                b = hp(match op {
                     0 => b.padding(0),
                     1 => b.padding(12),
                     2 => b.add_report_block(build::rb_builder(&rbx)),
                     _ => b.add_report_block(build::rb_builder(&rby)),
-                };
+                });
             }
             b
         });
@@ -595,9 +615,9 @@ pub fn c20(ctx: &mut Ctx) {
         let model = Pkt::Fb { kind: Kind::Transport, sender: 3, media: 4, fci: Fci::Nack(Fci::nack_set(&seq)), pad: 0 };
         let hist = || format!("Nack::builder(){}", seq.iter().map(|s| format!(".add_rtp_sequence({})", s)).collect::<String>());
         if owned {
-            all_wraps(l, "NackBuilder", &hist, &model, &|| TransportFeedback::builder_owned(build::nack_builder(&seq)).sender_ssrc(3).media_ssrc(4));
+            all_wraps(l, "NackBuilder", &hist, &model, &|| TransportFeedback::builder_owned(build::nack_builder_p(&seq, probing())).sender_ssrc(3).media_ssrc(4));
         } else {
-            let f = build::nack_builder(&seq);
+            let f = build::nack_builder_p(&seq, probing());
             all_wraps(l, "NackBuilder", &hist, &model, &|| TransportFeedback::builder(&f).sender_ssrc(3).media_ssrc(4));
         }
     });
@@ -610,9 +630,9 @@ pub fn c20(ctx: &mut Ctx) {
         let model = Pkt::Fb { kind: Kind::Transport, sender: 3, media: 4, fci: Fci::Nack(Fci::nack_set(&seq)), pad: 0 };
         let hist = || format!("Nack::builder(){}", seq.iter().map(|s| format!(".add_rtp_sequence({})", s)).collect::<String>());
         if owned {
-            all_wraps(l, "NackBuilder", &hist, &model, &|| TransportFeedback::builder_owned(build::nack_builder(&seq)).sender_ssrc(3).media_ssrc(4));
+            all_wraps(l, "NackBuilder", &hist, &model, &|| TransportFeedback::builder_owned(build::nack_builder_p(&seq, probing())).sender_ssrc(3).media_ssrc(4));
         } else {
-            let f = build::nack_builder(&seq);
+            let f = build::nack_builder_p(&seq, probing());
             all_wraps(l, "NackBuilder", &hist, &model, &|| TransportFeedback::builder(&f).sender_ssrc(3).media_ssrc(4));
         }
     });
@@ -627,9 +647,9 @@ pub fn c20(ctx: &mut Ctx) {
         let model = Pkt::Fb { kind: Kind::Payload, sender: 3, media: 4, fci: Fci::Fir(canonical), pad: 0 };
         let hist = || format!("Fir::builder(){}", seq.iter().map(|s| format!(".add_ssrc({:#x}, {})", s.0, s.1)).collect::<String>());
         if owned {
-            all_wraps(l, "FirBuilder", &hist, &model, &|| PayloadFeedback::builder_owned(build::fir_builder(&seq)).sender_ssrc(3).media_ssrc(4));
+            all_wraps(l, "FirBuilder", &hist, &model, &|| PayloadFeedback::builder_owned(build::fir_builder_p(&seq, probing())).sender_ssrc(3).media_ssrc(4));
         } else {
-            let f = build::fir_builder(&seq);
+            let f = build::fir_builder_p(&seq, probing());
             all_wraps(l, "FirBuilder", &hist, &model, &|| PayloadFeedback::builder(&f).sender_ssrc(3).media_ssrc(4));
         }
     });
